@@ -343,6 +343,12 @@ class Check:
                     self.known_hits.append(hit)
             else:
                 real.append(v)
+        # a broken proof obligation / translator expectation / correspondence stream with no NEW concrete failing input
+        # is still a violation: the property is no longer shown to hold (reported with no-failing-input-found)
+        if self.cov["broken"] and not any(v["found_input"] for v in real) and not any(v["key"].startswith("broken:") for v in real):
+            what = "; ".join(b["what"] for b in self.cov["broken"])[:1500]
+            real.append({"what": "no longer shown to hold: " + what, "found_input": False, "key": "broken:" + what[:200],
+                         "replay": {"kind": "broken-obligation", "broken": self.cov["broken"]}})
         wall = time.time() - self.t0
         ev = {"property_id": self.pid, "tier": self.tier, "seed": self.seed, "level": self.level,
               "coverage": self.cov, "assumptions": self.assumptions, "wall_s": round(wall, 2),
